@@ -77,6 +77,37 @@ def _rel(e):
     return e.kind == "call" and canon(e.data.get("attr")) is not None
 
 
+def _is_configuration(ctx, cls, attr: str) -> bool:
+    """``self.<attr>`` is a setting: written only by the constructor, from its
+    own parameters / literals (at most copied with dict()/list()/...).  An
+    object the constructor *creates* (a CpSolver, a model) is state, not a
+    setting - reusing it across solves is exactly what R03.a is about."""
+    from ..lifecycle import Lifecycle
+
+    srcs = Lifecycle(ctx).attr_sources(cls, attr)
+    init = cls.methods.get("__init__")
+    if not srcs or init is None:
+        return False
+    params = set(init.params[1:])
+    for f, v in srcs:
+        if f is not init or v is None:
+            return False
+        # it must come from a constructor argument (or be an immutable literal):
+        # an empty dict / list created in __init__ is a container to be filled
+        uses_param = any(isinstance(n, ast.Name) and n.id in params for n in ast.walk(v))
+        immutable = isinstance(v, ast.Constant)
+        if not (uses_param or immutable):
+            return False
+        for n in ast.walk(v):
+            if isinstance(n, ast.Name) and n.id not in params and n.id not in ("None", "True", "False", "dict", "list", "tuple", "set", "frozenset", "int", "float", "bool", "str"):
+                return False
+            if isinstance(n, ast.Call) and not (isinstance(n.func, ast.Name) and n.func.id in ("dict", "list", "tuple", "set", "frozenset", "int", "float", "bool", "str")):
+                return False
+            if isinstance(n, (ast.Attribute, ast.Lambda)):
+                return False
+    return True
+
+
 def run(ctx):
     chk, repo = ctx.chk, ctx.repo
     from .common import check_loop_variable_leaks
@@ -96,7 +127,7 @@ def run(ctx):
     solve = cls.methods.get("solve")
     if solve is None:
         raise AnalysisError("ORToolsSolver.solve vanished")
-    _find_roles(ctx, solve)
+    ctx.attempt(_find_roles, ctx, solve)
     chk.analysed["solver_state_roles"] = dict(ROLE)
     eng = ctx.engine(relevant=_rel, max_depth=5, unroll=1, budget=120000)
     paths = eng.paths(solve, cls)
@@ -129,7 +160,7 @@ def run(ctx):
             if attr not in first:
                 first[attr] = (kind, ev)
         for attr, (kind, ev) in first.items():
-            if kind == "use" and attr not in ("max_time_in_seconds", "log_search_progress"):
+            if kind == "use" and attr not in ("max_time_in_seconds", "log_search_progress") and not _is_configuration(ctx, cls, attr):
                 bad = True
                 chk.violation(
                     "R03.a", solve, ev.node,
@@ -183,7 +214,7 @@ def run(ctx):
             chk.violation("R03.b", solve, None, f"no path reaches Solve() after creating {what} ({w}/{SP[w]} is never called before solving)")
     if not bad:
         chk.ok("R03.b", solve.qualname, solve.loc(), f"{n_solve} paths to Solve(): all model-building calls precede it")
-    _shapes(ctx, cls)
+    ctx.attempt(_shapes, ctx, cls)
     # integer model data must not pass through the float32 views of the instance
     Fl = ctx.norm.flat(solve, depth=3)
     lossy = [n for n in own_nodes(Fl.node) if isinstance(n, ast.Attribute) and n.attr in ("durations_matrix_array", "machines_matrix_array")]
@@ -197,10 +228,10 @@ def run(ctx):
         )
 
     # ---------------------------------------------------------------- R03.c
-    _status(ctx, cls, solve)
+    ctx.attempt(_status, ctx, cls, solve)
 
     # ---------------------------------------------------------------- R03.d
-    _rebuild(ctx, cls)
+    ctx.attempt(_rebuild, ctx, cls)
 
 
 def _calls(fi, name):
@@ -727,6 +758,8 @@ def _status(ctx, cls, solve_raw):
     else:
         chk.violation("R03.c", solve_raw, st, f"status text `{ast.unparse(st)}` does not depend on the solver status", loc=solve.loc(st))
     mk = kv.get("makespan")
+    if mk is not None:
+        mk = ctx.norm.xexpr(solve, mk, depth=2) if isinstance(mk, ast.Call) and canon(getattr(mk.func, "attr", "")) != "Value" else mk  # a one-expression accessor
     if mk is not None and isinstance(mk, ast.Call) and canon(getattr(mk.func, "attr", "")) == "Value" and mk.args and _is_objective_var(ctx, solve, mk.args[0]):
         chk.ok("R03.c", solve_raw.qualname, solve.loc(mk), "reported makespan = solver.Value(objective variable)")
     else:
